@@ -369,3 +369,16 @@ for _k, _v in _FB.MUTANTS.items():
 MUTANTS.setdefault('C04', []).extend([
     ('arc-async-forwarder-calls-itself', 'src/common/file_traits.rs', "            (**self).async_read_at_volatile(buf, offset).await", "            self.async_read_at_volatile(buf, offset).await"),
 ])
+
+# file transfers above the transports (unit zcstreams; proposed and tried by the sub-agent that built it), incl. mutants of the D29 repair
+from vx import zcstreams_mutants_proposed as _ZC
+for _k, _v in _ZC.MUTANTS.items():
+    MUTANTS.setdefault(_k, []).extend(_v)
+
+# the read side of the overlay (unit ovl_read; proposed and tried by the sub-agent that built it) and the D30 repair
+from vx import ovl_read_mutants_proposed as _OR
+for _k, _v in _OR.MUTANTS.items():
+    MUTANTS.setdefault(_k, []).extend(_v)
+MUTANTS.setdefault('C10', []).extend([
+    ('ovl-stat64-ignores-every-errno', 'src/overlayfs/mod.rs', "if raw_error == libc::ENOENT || raw_error == libc::ENAMETOOLONG {", "if raw_error != libc::ENOENT || raw_error != libc::ENAMETOOLONG {"),
+])
